@@ -135,6 +135,14 @@ impl Table {
         mut writer: W,
         rows: Vec<Vec<ValueRef>>,
     ) -> io::Result<()> {
+        // The reader refuses tables with more than 65536 rows (see
+        // `read_rows`), so never write one.
+        if rows.len() > 65536 {
+            invalid_input!(
+                "Number of rows is too large ({} > 65536)",
+                rows.len()
+            );
+        }
         for (index, column) in self.columns.iter().enumerate() {
             let coltype = column.coltype();
             for row in rows.iter() {
